@@ -70,6 +70,47 @@ def late_data_doc(rng):
     return doc, evs[:k], evs[k:] + [rng.choice(["n", "c"]) for _ in range(rng.randint(1, 4))], other
 
 
+def delayed_doc(rng):
+    """pending delayed events at the snapshot: states of a ring send themselves delayed events (distinct delays, so that the
+    order in which they become due is determined) which move the chart on when they arrive"""
+    n = rng.randint(2, 4)
+    delays = rng.sample([120, 200, 280, 360, 440], n)
+    states = ""
+    for i in range(n):
+        send = '<onentry><send event="t%d" delay="%dms" id="snd%d"/></onentry>' % (i, delays[i], i) if rng.random() < 0.7 else ""
+        states += ('<state id="s%d">%s<transition event="n" target="s%d"/><transition event="t%d" target="late%d"/></state>'
+                   '<state id="late%d"><transition event="n" target="s%d"/><transition event="t%d" target="s%d"/></state>'
+                   % (i, send, (i + 1) % n, (i + rng.randrange(n)) % n, i, i, (i + 1) % n, rng.randrange(n), rng.randrange(n)))
+    doc = '<scxml xmlns="http://www.w3.org/2005/07/scxml" version="1.0" datamodel="null" initial="s0">%s</scxml>' % states
+    pre = ["n"] * rng.randint(0, 3)
+    cont = ["~600"] + [rng.choice(["n", "~500"]) for _ in range(rng.randint(0, 3))] + ["~600"]
+    other = '<scxml xmlns="http://www.w3.org/2005/07/scxml" version="1.0" datamodel="null"><state id="x"/><state id="y"/></scxml>'
+    return doc, pre, cont, other
+
+
+def suite_delayed(ctx, n):
+    rng = ctx.rng
+    lines, docs = [], []
+    for _ in range(n):
+        doc, pre, cont, other = delayed_doc(rng)
+        for engine in ("large", "fast"):
+            lines.append("%s\t-\t%s\t%s\t%s\t%s" % (engine, ",".join(pre) or "-", ",".join(cont) or "-", hexs(doc), hexs(other))); docs.append(doc)
+    outs = run_serial(ctx, lines)
+    st = dict(inputs=len(lines), identical=0, skipped=0, violations=0, delayed_events_after_restore=0)
+    for l, doc, o in zip(lines, docs, outs):
+        v, why = judge(o)
+        if v == "skip": st["skipped"] += 1; continue
+        if v == "ok":
+            st["identical"] += 1
+            st["delayed_events_after_restore"] += o.split(" || ")[1].count("bpe:t")
+            continue
+        st["violations"] += 1
+        if len(ctx.violations) < 4:
+            ctx.violation("delayed-%d" % len(ctx.violations), "serialize-delayed", [l],
+                          detail="engine %s, delayed events pending at the snapshot: %s\nprefix/continuation: %s\ndocument: %s" % (l.split("\t")[0], why, l.split("\t")[2:4], doc))
+    ctx.add_suite("serialize-delayed", **st)
+
+
 def suite_late(ctx, n):
     rng = ctx.rng
     lines, docs = [], []
@@ -119,6 +160,7 @@ def run(ctx):
                                   detail="engine %s, datamodel %s: %s\nchart: %s\nprefix/continuation: %s" % (engine, dm, why, charts.sexpr(d)[:500], l.split("\t")[2:4]))
     ctx.add_suite("serialize", **st)
     suite_late(ctx, 60 if quick else 2000)
+    suite_delayed(ctx, 40 if quick else 600)
     # the hypothesis of restore_snapshot is what the engine model maintains: evaluated at every stable point
     sc = E.gen_cases(rng, 400 if quick else 10000, p_history=0.5, max_events=4)
     res = ctx.driver_lines("snapcheck", ["large\t%s\t%s" % (charts.sexpr(d), ",".join(e) or "-") for d, e in sc], timeout=1800)
@@ -134,4 +176,4 @@ def run(ctx):
     ctx.coverage["evaluations"] = st["inputs"]
     ctx.coverage["distinct_nontrivial"] = st["identical"]
     ctx.coverage["rule"] = "random charts x prefix history; snapshot at the first stable configuration after the last prefix event (self-sent external events may be pending); serialize, deserialize into a fresh interpreter for the same document and for another one, run the continuation on both; both engines, null and lua (2 variables) datamodels; identical = same notifications, logs, configurations and a second snapshot that is byte-identical; plus the late-data family (lua, binding late/early, <data> inside states of a ring, counted up on entry and tested by conditions, snapshot anywhere in the history)"
-    ctx.assumptions += ["delayed events and invokers are not in the generated fragment (see DESIGN.md C14 partial)"]
+    ctx.assumptions += ["invokers are not in the generated fragment (see DESIGN.md C14 partial)", "pending delayed events: differential only (the Lean snapshot model covers the engine state and the external queue), waits of 500-600 ms between 120-440 ms delays"]
